@@ -29,6 +29,8 @@ var intRoots = []root{
 	// rtree/box.go, rtree/bulk.go, rtree/rtree.go
 	{"rtree", "calculateBound", false}, {"rtree", "itemsAreHorizontal", false},
 	{"rtree", "RTree.Count", false}, {"rtree", "RTree.Extent", false},
+	// geom/twkb_parser.go: the guard every element count read from untrusted input goes through
+	{"geom", "twkbParser.checkCount", false},
 	// Not listed, because outside the fragment (each would be `untranslatable`):
 	//  - rtree/bulk.go:quickPartition: a function without results whose func literals rnd / swap assign the
 	//    variables they capture (rndState, items) and whose outer loop `for { .. }` has no condition from which
